@@ -118,7 +118,7 @@ func mask(w int) uint64 {
 }
 
 func (tb *Table) Var(name string, s Sort) *Term { return tb.mk("var", s, name, 0) }
-func (tb *Table) BV(w int, v uint64) *Term       { return tb.mk("bv", BVSort(w), "", v&mask(w)) }
+func (tb *Table) BV(w int, v uint64) *Term      { return tb.mk("bv", BVSort(w), "", v&mask(w)) }
 func (tb *Table) Bool(b bool) *Term {
 	if b {
 		return tb.True
@@ -563,9 +563,65 @@ func (tb *Table) StrContains(s, sub *Term) *Term {
 func (tb *Table) StrFromInt(i *Term) *Term { return tb.mk("str.from_int", StrSort, "", 0, i) }
 func (tb *Table) BV2Nat(a *Term) *Term     { return tb.mk("bv2nat", IntSort, "", 0, a) }
 func (tb *Table) IntCmp(op string, a, b *Term) *Term {
+	switch op {
+	case ">":
+		return tb.IntCmp("<", b, a)
+	case ">=":
+		return tb.IntCmp("<=", b, a)
+	}
+	if a.Op == "int" && b.Op == "int" {
+		x, y := int64(a.Val), int64(b.Val)
+		if op == "<" {
+			return tb.Bool(x < y)
+		}
+		return tb.Bool(x <= y)
+	}
+	if a == b {
+		return tb.Bool(op == "<=")
+	}
 	return tb.mk(op, BoolSort, "", 0, a, b)
 }
-func (tb *Table) IntBin(op string, a, b *Term) *Term { return tb.mk(op, IntSort, "", 0, a, b) }
+func (tb *Table) IntBin(op string, a, b *Term) *Term {
+	if a.Op == "int" && b.Op == "int" {
+		x, y := int64(a.Val), int64(b.Val)
+		switch op {
+		case "+":
+			return tb.IntLit(x + y)
+		case "-":
+			return tb.IntLit(x - y)
+		case "*":
+			return tb.IntLit(x * y)
+		}
+	}
+	if (op == "+" || op == "-") && b.Op == "int" && b.Val == 0 {
+		return a
+	}
+	if op == "+" && a.Op == "int" && a.Val == 0 {
+		return b
+	}
+	// (x + c1) + c2
+	if (op == "+" || op == "-") && b.Op == "int" && a.Op == "+" && len(a.Args) == 2 && a.Args[1].Op == "int" {
+		c := int64(a.Args[1].Val)
+		if op == "+" {
+			c += int64(b.Val)
+		} else {
+			c -= int64(b.Val)
+		}
+		return tb.IntBin("+", a.Args[0], tb.IntLit(c))
+	}
+	if op == "-" && b.Op == "int" {
+		return tb.mk("+", IntSort, "", 0, a, tb.IntLit(-int64(b.Val)))
+	}
+	return tb.mk(op, IntSort, "", 0, a, b)
+}
+
+// Int2BV converts a mathematical integer to a bit-vector (two's complement, mod 2^w).
+func (tb *Table) Int2BV(w int, i *Term) *Term {
+	if i.Op == "int" {
+		return tb.BV(w, i.Val)
+	}
+	return tb.mk("int2bv", BVSort(w), "", uint64(w), i)
+}
 
 // ---- printing ----
 
@@ -652,7 +708,9 @@ func (p *Printer) write(sb *strings.Builder, t *Term, pre *[]string, top bool) {
 		return
 	case "int":
 		v := int64(t.Val)
-		if v < 0 {
+		if v == -1<<63 {
+			sb.WriteString("(- 9223372036854775808)")
+		} else if v < 0 {
 			fmt.Fprintf(sb, "(- %d)", -v)
 		} else {
 			fmt.Fprintf(sb, "%d", v)
@@ -676,6 +734,8 @@ func (p *Printer) writeNode(sb *strings.Builder, t *Term, pre *[]string) {
 	switch t.Op {
 	case "extract":
 		fmt.Fprintf(sb, "((_ extract %d %d) ", t.Val>>32, t.Val&0xffffffff)
+	case "int2bv":
+		fmt.Fprintf(sb, "((_ int2bv %d) ", t.Val)
 	case "zext":
 		fmt.Fprintf(sb, "((_ zero_extend %d) ", t.Val)
 	case "sext":
